@@ -189,6 +189,18 @@ class RegT(object):
 
 
 @server.expose
+class RegSlots(object):
+    """an exposed object that cannot take new attributes (and cannot be weakly referenced): registering it fails half way"""
+    __slots__ = ("label",)
+
+    def __init__(self, label):
+        self.label = label
+
+    def who(self):
+        return self.label
+
+
+@server.expose
 @server.behavior(instance_mode="single")
 class RegK(object):
     def who(self):
